@@ -556,8 +556,36 @@ def crafted_variants(frec, rng):
                 out.append(("block %d last filter property byte = 41 (invalid dict size), CRC fixed" % bi, n, bytes(b)))
                 b = bytearray(d); b[a] = 0x22; fix_bh(b)
                 out.append(("block %d first filter id = 0x22 (unknown), CRC fixed" % bi, n, bytes(b)))
+    out = [(w, fld, v, True) for (w, fld, v) in out]
+    # EVERY single bit of every numeric / flag field that a CRC32 covers, with the covering CRC32 recomputed, so that the
+    # check behind the CRC is what has to catch it (top bits of Backward Size, every VLI bit, reserved flag bits, ...).
+    # must_reject: fields whose every change is an error by the format; for Block Flags and Filter Flags a changed value
+    # can be a different but valid header (e.g. another dictionary size), so those are judged by "success => same data"
+    # and by the model.
+    must = {"ftr.bsize", "ftr.flags", "hdr.flags", "blk.hdr.csize", "blk.hdr.usize", "blk.hdr.pad", "idx.count", "idx.records", "idx.pad"}
+    soft = {"blk.hdr.flags", "blk.hdr.filters"}
+    hdr_ranges = [(h0, hc0, hc1) for ((h0, _), (hc0, hc1)) in zip(hdr_starts, hdr_crcs)]
+    for (a, bnd, n) in segs:
+        if n not in must and n not in soft:
+            continue
+        if n.startswith("blk.hdr.") and not any(h0 <= a < hc0 for (h0, hc0, _) in hdr_ranges[:2]):
+            continue
+        for bit in range(8 * (bnd - a)):
+            b = bytearray(d)
+            b[a + bit // 8] ^= 1 << (bit % 8)
+            if n.startswith("ftr."):
+                fix_footer(b)
+            elif n.startswith("hdr."):
+                fix_header(b)
+            elif n.startswith("idx."):
+                fix_index(b, ix0, crc_at)
+            else:
+                for (h0, hc0, hc1) in hdr_ranges:
+                    if h0 <= a < hc0:
+                        b[hc0:hc1] = struct.pack("<I", zlib.crc32(bytes(b[h0:hc0])))
+            out.append(("%s bit %d (byte %d) flipped, CRC fixed" % (n, bit, a + bit // 8), n, bytes(b), n in must))
     # keep only real changes
-    return [(w, fld, v) for (w, fld, v) in out if v != d]
+    return [(w, fld, v, m) for (w, fld, v, m) in out if v != d]
 
 
 # ----------------------------------------------------------------------------------------------------------------
